@@ -160,33 +160,71 @@ def toPortable (d : InvData) (vars : List (List Val × List Val)) : PModel :=
 def countQ (qs : List Quantity) (k : QKind) : Nat := (qs.filter (fun q => q.kind = k)).length
 def countE (es : List Equation) (k : EKind) : Nat := (es.filter (fun e => e.kind = k)).length
 
+/-- the level of a quantity after the import of a variant: the dictionary's when the name is there, else the initial one -/
+def pickFst (i : Val) (p : Option (Val × Val)) : Val :=
+  match p with
+  | some v => v.1
+  | none => i
+
+def pickSnd (i : Val) (p : Option (Val × Val)) : Val :=
+  match p with
+  | some v => v.2
+  | none => i
+
 /-- the values of one imported variant: initial values overwritten by the dictionary, then the assignment rules -/
 def importVariant (d : InvData) (dict : List (String × Val × Val)) : List Val × List Val :=
   let pairs := decodeVariant (d.quantities.map (·.name)) dict
-  (enforceLevels d.quantities (List.zipWith (fun i p => match p with | some v => v.1 | none => i) (initLevels d) pairs),
-   enforceChanges d.quantities (List.zipWith (fun i p => match p with | some v => v.2 | none => i) (initChanges d) pairs))
+  (enforceLevels d.quantities (List.zipWith pickFst (initLevels d) pairs),
+   enforceChanges d.quantities (List.zipWith pickSnd (initChanges d) pairs))
 
-/-- `Simultaneous.from_portable` (with the three pending fixes); `subst` is the regex substitution of
-`shock -> (shock+ant_shock)` in the dynamic equations, applied only when some shock lacks its counterpart -/
+/-- the quantities `from_source` ends up with before sorting: the decoded ones, the anticipated shocks still missing,
+the std parameters -/
+def sourceQuantities (fl : Flags) (qs : List Quantity) : List Quantity :=
+  (qs ++ (missingAnt qs).map antOf) ++ stdsOf fl (qs ++ (missingAnt qs).map antOf)
+
+/-- `subst` is the regex substitution `shock -> (shock+ant_shock)` in the dynamic equations; it is applied only when some
+shock lacks its anticipated counterpart (never for an exported model) -/
+def sourceEquations (subst : List Quantity → Equation → Equation) (qs : List Quantity) (es : List Equation) : List Equation :=
+  if (missingAnt qs).isEmpty then es else es.map (subst (missingAnt qs))
+
+def mkInv (p : PModel) (tol : Rat) (qs2 : List Quantity) (es1 : List Equation) : InvData :=
+  { desc := p.desc, flags := p.flags, quantities := groupQ fullOrder qs2, equations := groupE es1,
+    contextKeys := p.context, tolEig := tol, tolEq := tol, defaultStd := if p.flags.linear then 1 else 1 / 100 }
+
+/-- `assign_strict`: every key of the dictionary is a name of the model -/
+def namesKnown (d : InvData) (dict : List (String × Val × Val)) : Bool :=
+  dict.all (fun e => (d.quantities.map (·.name)).contains e.1)
+
+/-- `Simultaneous.from_portable` (with the three fixes of the first round) -/
 def fromPortable (subst : List Quantity → Equation → Equation) (tol : Rat) (p : PModel) :
     Except PErr (InvData × List (List Val × List Val)) :=
   if p.format ≠ "0.3.0" then .error .format else
   match decodeQs p.quantities, decodeEs p.equations with
   | some qs, some es =>
-    let missing := missingAnt qs
-    let qs1 := qs ++ missing.map antOf
-    let es1 := if missing.isEmpty then es else es.map (subst missing)
-    let qs2 := qs1 ++ stdsOf p.flags qs1
-    if ¬ (qs2.map (·.name)).Nodup then .error .duplicateNames
-    else if countQ qs2 .transVar ≠ countE es1 .transition ∨ countQ qs2 .measVar ≠ countE es1 .measurement then .error .counts
-    else
-      let d : InvData :=
-        { desc := p.desc, flags := p.flags, quantities := groupQ fullOrder qs2, equations := groupE es1,
-          contextKeys := p.context, tolEig := tol, tolEq := tol,
-          defaultStd := if p.flags.linear then 1 else 1 / 100 }
-      if p.variants.isEmpty then .error .noVariants
-      else if p.variants.any (fun dict => dict.any (fun e => !(d.quantities.any (fun q => q.name == e.1)))) then .error .unknownName
-      else .ok (d, p.variants.map (importVariant d))
+    if ¬ ((sourceQuantities p.flags qs).map (·.name)).Nodup then .error .duplicateNames
+    else if countQ (sourceQuantities p.flags qs) .transVar ≠ countE (sourceEquations subst qs es) .transition
+        ∨ countQ (sourceQuantities p.flags qs) .measVar ≠ countE (sourceEquations subst qs es) .measurement then .error .counts
+    else if p.variants.isEmpty then .error .noVariants
+    else if ¬ p.variants.all (namesKnown (mkInv p tol (sourceQuantities p.flags qs) (sourceEquations subst qs es))) then
+      .error .unknownName
+    else .ok (mkInv p tol (sourceQuantities p.flags qs) (sourceEquations subst qs es),
+              p.variants.map (importVariant (mkInv p tol (sourceQuantities p.flags qs) (sourceEquations subst qs es))))
   | _, _ => .error .badCode
+
+/-- executable form of the well-formedness the whole-record round-trip theorem needs (`PortableWF` in `Props/C20.lean`,
+with `base` = the non-std quantities); the driver evaluates it on every generated model -/
+def portableWFb (d : InvData) (vars : List (List Val × List Val)) : Bool :=
+  let base := d.quantities.filter (fun q => !q.kind.isStd)
+  decide (d.quantities = base ++ stdsOf d.flags base)
+  && decide (groupQ exportOrder base = base)
+  && decide (missingAnt base = [])
+  && decide ((d.quantities.map (·.name)).Nodup)
+  && decide (countQ d.quantities .transVar = countE d.equations .transition)
+  && decide (countQ d.quantities .measVar = countE d.equations .measurement)
+  && decide (groupE d.equations = d.equations)
+  && decide ("__builtins__" ∉ d.contextKeys)
+  && !vars.isEmpty
+  && vars.all (fun v => decide (v.1.length = d.quantities.length) && decide (v.2.length = d.quantities.length)
+      && decide (enforceLevels d.quantities v.1 = v.1) && decide (enforceChanges d.quantities v.2 = v.2))
 
 end IrisVerif.Portable
